@@ -21,7 +21,8 @@ RULE = ("for each configuration (outputs file / devlog / stdout / devnull / sock
         "parked thread and the parent complete their own calls with correct records. non-trivial = the fork was taken while the "
         "second thread was parked inside the call; distinct by (k, output, depth, real)")
 
-CONFIGS = [("file", "%{cmdline}"), ("file", "%{snoopy_threads} %{cmdline}"), ("devlog", "%{cmdline}"), ("stdout", "%{snoopy_threads}:%{cmdline}"),
+ALL_DS = "".join("%{" + n + (":1" if n == "cgroup" else (":HOME" if n == "env" else "")) + "}|" for n in gen.ALL_SOURCES) + "%{cmdline}"
+CONFIGS = [("file", "%{cmdline}"), ("file", ALL_DS), ("file", "%{snoopy_threads} %{cmdline}"), ("devlog", "%{cmdline}"), ("stdout", "%{snoopy_threads}:%{cmdline}"),
            ("devnull", "%{cmdline}"), ("socket", "%{tid}:%{cmdline}")]
 
 
@@ -35,7 +36,7 @@ def run_case(d, c):
     """c: dict(okind, fmt, k, depth, real).  Returns (events_total, parked) ; raises Failure."""
     out = d.out
     child_path = drv.ARGDUMP.encode() if c["real"] else b"/bin/child"
-    ops = [drv.op("x", out + "/log")] + gen.std_sinks(out)[:5] + [drv.op("C", ini_for(out, c["okind"], c["fmt"])),
+    ops = [drv.op("x", out + "/log"), drv.op("S", 0, "pty")] + gen.std_sinks(out)[:5] + [drv.op("C", ini_for(out, c["okind"], c["fmt"])),
                                                                    drv.op_exec("e", b"/bin/warm", [b"warmup"], [], ret=-1, err=2),
                                                                    drv.op("J", c["k"], c["depth"]),
                                                                    drv.op_exec("e", b"/bin/B", [b"thread-B-call"], [], ret=-1, err=2, tno=0, callno=0),
@@ -158,7 +159,7 @@ def main():
         d.close()
         ctx.finish()
     jobs = []
-    cfgs = CONFIGS if not ctx.quick else CONFIGS[:4]
+    cfgs = CONFIGS if not ctx.quick else CONFIGS[:5]
     for okind, fmt in cfgs:
         for depth in (1, 2):
             for real in (False, True):
@@ -167,8 +168,7 @@ def main():
         rng = random.Random(ctx.seed)
         for _ in range(24):
             fmt = " ".join("%{" + rng.choice(["cmdline", "snoopy_threads", "tid", "uid", "login", "cwd", "tty", "env:X", "rpname", "username"]) + "}" for _ in range(rng.randint(1, 5)))
-            if "cmdline" not in fmt:
-                fmt += " %{cmdline}"
+            fmt += " %{cmdline}"          # records are recognised by their trailing command line
             jobs.append((rng.choice(["file", "devlog", "stdout", "socket"]), fmt, rng.choice([1, 2]), rng.random() < 0.4))
     nw = 16
     _W.update({"ctx": ctx, "build": b})
